@@ -1152,6 +1152,23 @@ def c14_matrix(ctx, M):
     ctx.floor("C14.R1", n, 20, what="exit rows with a validator-bearing status")
 
 
+def _known_order(o, a, b):
+    """what the path knows about a vs b from decided comparisons: 'lt' / 'le' / 'gt' / 'ge' / 'eq' / None"""
+    for tt, v in o.cons.known.items():
+        if not (isinstance(tt, tuple) and len(tt) == 4 and tt[0] == "binop" and tt[1] in ("Lt", "Le", "Gt", "Ge")):
+            continue
+        x, y = tt[2], tt[3]
+        if {x, y} != {a, b} or x == y:
+            continue
+        op = tt[1]
+        if v == 0:
+            op = {"Lt": "Ge", "Le": "Gt", "Gt": "Le", "Ge": "Lt"}[op]
+        if x == b:      # the comparison is b op a: mirror it
+            op = {"Lt": "Gt", "Le": "Ge", "Gt": "Lt", "Ge": "Le"}[op]
+        return op.lower()
+    return None
+
+
 def c14_clamp(ctx, M):
     """Last-Modified = fmt(min(m, d)), Date = fmt(d') with d' == d (same `now`) or a later now()"""
     n = 0
@@ -1177,7 +1194,12 @@ def c14_clamp(ctx, M):
             is_now = isinstance(dt, tuple) and dt[0] == "call" and dt[1].endswith("SystemTime::now")
             if not is_now:
                 bad.append("Date is not the current time")
-            if not (isinstance(t, tuple) and t[0] == "min" and set(t[1:]) == {m, dt}):
+            is_min = isinstance(t, tuple) and t[0] == "min" and set(t[1:]) == {m, dt}
+            if not is_min:
+                # the clamp written as a comparison: the value is `m` on a path that knows m <= now, `now` on one that knows now <= m
+                rel = _known_order(r.o, m, dt)
+                is_min = (t == m and rel in ("le", "lt", "eq")) or (t == dt and rel in ("ge", "gt", "eq"))
+            if not is_min:
                 bad.append("Last-Modified is %s, not min(modification time, the Date's time)" % short(t, 100))
         if bad:
             ctx.violation("C14.R2", "C14.R2|%s" % bad[0][:40], "; ".join(bad), where=row_where(r))
